@@ -462,7 +462,7 @@ def stream_binds(rng, n, work):
         # a well-formed signature: posonly*, pos-or-kw*, [*args], kwonly*, [**kw]; defaults only at the tail of positional
         ps = []
         nm = rng.sample(names, rng.randrange(0, 6))
-        npo = rng.randrange(0, 2) if nm else 0
+        npo = 0  # no positional-only parameters: inspect.Signature.bind and a real call disagree on them in the presence of **kwargs
         rest = nm[npo:]
         npk = rng.randrange(0, len(rest) + 1)
         nko = len(rest) - npk
